@@ -573,6 +573,41 @@ theorem preRun_var (img : Image) (s0 : State) (pc h : Nat) (rest : List Frame) (
     exact ⟨_, _, fl, rfl, by simpa [getLV_cons] using hv⟩
 
 
+section ExprCount
+open Sem
+
+/-- prologue of `repeat {e}` for a call-free expression `e` whose source-level value is the
+number `n`: by `C02_same_value_everywhere` the code `⟦e⟧; POP counter` leaves that value in
+the hidden counter — evaluated once, here -/
+theorem preRun_expr (img : Image) (s0 : State) (pc h : Nat) (rest : List Frame) (e : Expr)
+    (he : CallFree e) (fuel : Nat) (σ σ' : S) (x : Val) (n : Rat) (fl : Bool)
+    (hs : s0.status = .running) (hpc : s0.pc = (pc : Int))
+    (hc : CodeAt img pc (genRv (.expr e) (.to counter))) (hst : s0.stack = .loop [] h :: rest)
+    (henv : SameEnv σ s0) (hev : evalExpr fuel e σ = .ok (x, σ')) (hv : Num x n fl) :
+    PreRun img (genRv (.expr e) (.to counter)) s0
+      { s0 with pc := s0.pc + ((genRv (.expr e) (.to counter)).length : Int),
+                stack := .loop [(.counter, x)] h :: rest } n := by
+  obtain ⟨hrun, _, _⟩ := C02_same_value_everywhere img e he counter fuel σ σ' x s0 pc hs hpc hc henv hev
+  have hst' : ({ s0 with pc := (pc : Int) + (genExpr e).length } : State).stack = .loop [] h :: rest := hst
+  have hput : ({ s0 with pc := (pc : Int) + (genExpr e).length } : State).put counter x =
+      { s0 with pc := (pc : Int) + (genExpr e).length, stack := .loop [(.counter, x)] h :: rest } := by
+    simp only [counter, State.put, putLoopVar_eq hst']; rfl
+  have hrun' : run img (genRv (.expr e) (.to counter)).length s0 =
+      { s0 with pc := s0.pc + ((genRv (.expr e) (.to counter)).length : Int),
+                stack := .loop [(.counter, x)] h :: rest } := by
+    rw [hrun]
+    simp only [hput]
+    rw [if_pos (by exact hs)]
+    apply State.ext' <;> first | rfl | (simp [genRv, hpc]; omega)
+  refine ⟨⟨_, hrun'⟩, hs, rfl, rfl, ?_⟩
+  intro h' rest' hst2
+  rw [hst] at hst2
+  simp only [List.cons.injEq, Frame.loop.injEq, true_and] at hst2
+  obtain ⟨rfl, rfl⟩ := hst2
+  exact ⟨[(.counter, x)], rest, fl, rfl, by simpa [getLV_cons] using hv⟩
+
+end ExprCount
+
 /-! ## loops with an index variable -/
 
 /-- `x + incr` as the VM computes it (`None` if it would fault) -/
@@ -1008,36 +1043,95 @@ theorem indexVarRange_lit_with (v : String) (av bv : Val) :
        .move (.loopVar .first) (.var v)] ++ calcCounter := by
   simp [indexVarRange, genRv]
 
+/-- `MOVE src <loop variable>` -/
+theorem run_move_lv (img : Image) (s : State) (pc : Nat) (src : Src) (l : LoopVar)
+    (vars : List (LoopVar × Val)) (h : Nat) (rest : List Frame)
+    (hs : s.status = .running) (hpc : s.pc = (pc : Int))
+    (hi : img.code[pc]? = some (.move src (.loopVar l))) (hst : s.stack = .loop vars h :: rest) :
+    run img 1 s = { s with pc := (pc : Int) + 1, stack := .loop (setLV vars l (s.read src)) h :: rest } := by
+  have hput : s.put (.loopVar l) (s.read src) =
+      { s with stack := .loop (setLV vars l (s.read src)) h :: rest } := by
+    simp only [State.put, putLoopVar_eq hst]
+  rw [run_one _ _ hs, step_move img s pc src (.loopVar l) hs hpc hi (by rw [hput]; exact hs), hput]
+  simp [hpc]
+
+/-- **operands that need no code of their own** — a literal, a variable, a register
+(`SimpleArg`): `genRv a → <loop variable>` is one instruction that stores what `a` denotes in
+the current state (`s.read a.src`) -/
+theorem run_simple_lv (img : Image) (s : State) (pc : Nat) (a : Rv) (ha : SimpleArg a) (l : LoopVar)
+    (vars : List (LoopVar × Val)) (h : Nat) (rest : List Frame)
+    (hs : s.status = .running) (hpc : s.pc = (pc : Int))
+    (hc : CodeAt img pc (genRv a (.to (.loopVar l)))) (hst : s.stack = .loop vars h :: rest) :
+    (genRv a (.to (.loopVar l))).length = 1 ∧
+    run img 1 s =
+      { s with pc := (pc : Int) + 1, stack := .loop (setLV vars l (s.read a.src)) h :: rest } := by
+  cases ha with
+  | lit v =>
+    have hc' : CodeAt img pc [Instr.moveq v (.loopVar l)] := by simpa [genRv] using hc
+    exact ⟨by simp [genRv], run_moveq_lv img s pc l v vars h rest hs hpc hc'.head hst⟩
+  | var n =>
+    have hc' : CodeAt img pc [Instr.move (.var n) (.loopVar l)] := by simpa [genRv] using hc
+    exact ⟨by simp [genRv], run_move_lv img s pc (.var n) l vars h rest hs hpc hc'.head hst⟩
+  | reg r =>
+    have hc' : CodeAt img pc [Instr.move (.reg r) (.loopVar l)] := by simpa [genRv] using hc
+    exact ⟨by simp [genRv], run_move_lv img s pc (.reg r) l vars h rest hs hpc hc'.head hst⟩
+
+/-- what a simple operand denotes does not depend on `pc` or the innermost loop frame's hidden
+variables -/
+theorem read_simple_retop (a : Rv) (ha : SimpleArg a) (s t : State)
+    (vars vars' : List (LoopVar × Val)) (h h' : Nat) (rest : List Frame)
+    (hs : s.stack = .loop vars h :: rest) (ht : t.stack = .loop vars' h' :: rest)
+    (hc : t.constants = s.constants) (hg : t.globals = s.globals) (hr : t.regs = s.regs) :
+    t.read a.src = s.read a.src := by
+  cases ha with
+  | lit v => rfl
+  | var n => exact getVariable_retop s t vars vars' h h' rest n hs ht hc hg
+  | reg r => simp [Rv.src, State.read, hr]
+
+theorem read_simple_afterLoop (a : Rv) (ha : SimpleArg a) (s : State) :
+    (afterLoop s).read a.src = s.read a.src := by
+  cases ha <;> rfl
+
 /-- what the first three instructions of a `with … from a to b` prologue do: `first := a`,
 `last := b`, `v := first` -/
-theorem run_bounds_lit (img : Image) (s0 : State) (pc h : Nat) (rest : List Frame) (v : String)
-    (av bv : Val) (vars0 : List (LoopVar × Val))
+theorem run_bounds (img : Image) (s0 : State) (pc h : Nat) (rest : List Frame) (v : String)
+    (a b : Rv) (ha : SimpleArg a) (hb : SimpleArg b) (vars0 : List (LoopVar × Val))
     (hs : s0.status = .running) (hpc : s0.pc = (pc : Int))
-    (hc : CodeAt img pc [Instr.moveq av (.loopVar .first), .moveq bv (.loopVar .last),
-       .move (.loopVar .first) (.var v)])
+    (hc : CodeAt img pc (genRv a (.to (.loopVar .first)) ++ genRv b (.to (.loopVar .last)) ++
+       [Instr.move (.loopVar .first) (.var v)]))
     (hst : s0.stack = .loop vars0 h :: rest) (hconst : s0.constants.get v = none)
     (hscope : ScopeOk s0.stack) :
     ∃ s3 rest1, run img 3 s0 = s3 ∧ s3.status = .running ∧ s3.pc = (pc : Int) + 3 ∧ s3.eval = s0.eval ∧
-      s3.stack = .loop (setLV (setLV vars0 .first av) .last bv) h :: rest1 ∧
-      s3.getVariable v = av ∧ s3.constants = s0.constants ∧ ScopeOk s3.stack ∧ s3.regs = s0.regs := by
+      s3.stack = .loop (setLV (setLV vars0 .first (s0.read a.src)) .last (s0.read b.src)) h :: rest1 ∧
+      s3.getVariable v = s0.read a.src ∧ s3.constants = s0.constants ∧ ScopeOk s3.stack ∧
+      s3.regs = s0.regs := by
+  let av := s0.read a.src
+  let bv := s0.read b.src
   let v1 := setLV vars0 .first av
   let v2 := setLV v1 .last bv
   let sa : State := { s0 with pc := (pc : Int) + 1, stack := .loop v1 h :: rest }
   let sb : State := { s0 with pc := (pc : Int) + 2, stack := .loop v2 h :: rest }
-  have ha : run img 1 s0 = sa := run_moveq_lv img s0 pc .first av vars0 h rest hs hpc (hc.get 0 (by simp)) hst
-  have hb : run img 1 sa = sb := by
-    rw [run_moveq_lv img sa (pc + 1) .last bv v1 h rest (by exact hs) (by simp [sa]) (hc.get 1 (by simp)) rfl]
+  obtain ⟨hla, ha1⟩ := run_simple_lv img s0 pc a ha .first vars0 h rest hs hpc hc.left.left hst
+  have ha1 : run img 1 s0 = sa := ha1
+  have hcb : CodeAt img (pc + 1) (genRv b (.to (.loopVar .last))) := by
+    have := hc.left.right; rw [hla] at this; exact this
+  obtain ⟨hlb, hb1⟩ := run_simple_lv img sa (pc + 1) b hb .last v1 h rest (by exact hs) (by simp [sa]) hcb rfl
+  have hrb : sa.read b.src = bv := read_simple_retop b hb s0 sa vars0 v1 h h rest hst rfl rfl rfl rfl
+  have hb1 : run img 1 sa = sb := by
+    rw [hb1, hrb]
     apply State.ext' <;> first | rfl | (simp [sa, sb]; omega)
+  have hcm : img.code[pc + 2]? = some (.move (.loopVar .first) (.var v)) := by
+    have := hc.right.head
+    simpa [hla, hlb] using this
   have hgf : getLV v2 .first = av := by
     rw [getLV_setLV_other _ _ _ _ (by simp), getLV_setLV_self]
   have hcm : run img 1 sb = { sb.putVariable v av with pc := (pc : Int) + 3 } := by
-    rw [run_move_lv_var img sb (pc + 2) .first v v2 h rest (by exact hs) (by simp [sb]) (hc.get 2 (by simp)) rfl,
-      hgf]
+    rw [run_move_lv_var img sb (pc + 2) .first v v2 h rest (by exact hs) (by simp [sb]) hcm rfl, hgf]
     apply State.ext' <;> first | rfl | (simp; omega)
   obtain ⟨hget, hsc, hcon, htop⟩ := putVariable_get sb v av hconst (by rw [hst] at hscope; exact hscope.retop)
   obtain ⟨rest1, hst3⟩ := htop v2 h rest rfl
   refine ⟨{ sb.putVariable v av with pc := (pc : Int) + 3 }, rest1, ?_, ?_, rfl, ?_, hst3, hget, hcon, hsc, ?_⟩
-  · exact run_trans ha (run_trans hb hcm)
+  · exact run_trans ha1 (run_trans hb1 hcm)
   · simpa [putVariable_status] using hs
   · simp only []; rw [putVariable_eval]
   · show (sb.putVariable v av).regs = s0.regs
@@ -1045,31 +1139,47 @@ theorem run_bounds_lit (img : Image) (s0 : State) (pc h : Nat) (rest : List Fram
     repeat' split
     all_goals rfl
 
-/-- **range prologue.**  `Gen.indexVarRange v a b true` with literal bounds: afterwards `v`
+theorem genRv_simple_length (a : Rv) (ha : SimpleArg a) (l : LoopVar) :
+    (genRv a (.to (.loopVar l))).length = 1 := by
+  cases ha <;> simp [genRv]
+
+theorem indexVarRange_length (v : String) (a b : Rv) (ha : SimpleArg a) (hb : SimpleArg b) (w : Bool) :
+    (indexVarRange v a b w).length = if w then 23 else 18 := by
+  unfold indexVarRange
+  simp only [List.length_append, genRv_simple_length a ha, genRv_simple_length b hb, List.length_cons,
+    List.length_nil]
+  cases w <;> simp [calcCounter, calcIncr, testOp, incCounter]
+
+/-- **range prologue.**  `Gen.indexVarRange v a b true` with simple bounds: afterwards `v`
 denotes `a`, the hidden counter is `|b − a| + 1`, `incr` is `+1` (`a ≤ b`) or `−1`. -/
 theorem range_prologue (img : Image) (s0 : State) (pc h : Nat) (rest : List Frame) (v : String)
-    (av bv : Val) (x y : Rat) (fx fy : Bool)
+    (a b : Rv) (ha : SimpleArg a) (hb : SimpleArg b) (x y : Rat) (fx fy : Bool)
     (hs : s0.status = .running) (hpc : s0.pc = (pc : Int))
-    (hc : CodeAt img pc (indexVarRange v (.lit av) (.lit bv) true))
+    (hc : CodeAt img pc (indexVarRange v a b true))
     (hst : s0.stack = .loop [] h :: rest) (hconst : s0.constants.get v = none)
-    (hscope : ScopeOk s0.stack) (hav : Num av x fx) (hbv : Num bv y fy) :
+    (hscope : ScopeOk s0.stack) (hav : Num (s0.read a.src) x fx) (hbv : Num (s0.read b.src) y fy) :
     ∃ k s1 vars rest1, run img k s0 = s1 ∧ s1.status = .running ∧
-      s1.pc = (pc : Int) + (indexVarRange v (.lit av) (.lit bv) true).length ∧ s1.eval = s0.eval ∧
+      s1.pc = (pc : Int) + 23 ∧ s1.eval = s0.eval ∧
       s1.stack = .loop vars h :: rest1 ∧
       Num (getLV vars .counter) ((if y - x < 0 then -(y - x) else y - x) + 1) (fy || fx) ∧
       getLV vars .incr = .int (if y - x < 0 then -1 else 1) ∧
-      s1.getVariable v = av ∧ s1.constants = s0.constants ∧ ScopeOk s1.stack := by
-  rw [indexVarRange_lit_with] at hc ⊢
+      s1.getVariable v = s0.read a.src ∧ s1.constants = s0.constants ∧ ScopeOk s1.stack := by
+  have hc' : CodeAt img pc ((genRv a (.to (.loopVar .first)) ++ genRv b (.to (.loopVar .last)) ++
+      [Instr.move (.loopVar .first) (.var v)]) ++ calcCounter) := by
+    simpa [indexVarRange] using hc
   obtain ⟨s3, rest1, hr3, hs3, hpc3, hev3, hst3, hgv3, hcon3, hsc3, _⟩ :=
-    run_bounds_lit img s0 pc h rest v av bv [] hs hpc hc.left hst hconst hscope
-  have hf : Num (getLV (setLV (setLV [] .first av) .last bv) .first) x fx := by
+    run_bounds img s0 pc h rest v a b ha hb [] hs hpc hc'.left hst hconst hscope
+  have hf : Num (getLV (setLV (setLV [] .first (s0.read a.src)) .last (s0.read b.src)) .first) x fx := by
     rw [getLV_setLV_other _ _ _ _ (by simp), getLV_setLV_self]; exact hav
-  have hl : Num (getLV (setLV (setLV [] .first av) .last bv) .last) y fy := by
+  have hl : Num (getLV (setLV (setLV [] .first (s0.read a.src)) .last (s0.read b.src)) .last) y fy := by
     rw [getLV_setLV_self]; exact hbv
+  have hcc : CodeAt img (pc + 3) calcCounter := by
+    have := hc'.right
+    simpa [genRv_simple_length a ha, genRv_simple_length b hb] using this
   obtain ⟨k, vars', hrun, hcnt, hinc, _⟩ := run_calcCounter img s3 (pc + 3) _ h rest1 x y fx fy hs3
-    (by rw [hpc3]; simp) (by have := hc.right; simpa using this) hst3 hf hl
+    (by rw [hpc3]; simp) hcc hst3 hf hl
   refine ⟨3 + k, _, vars', rest1, run_trans hr3 hrun, hs3, ?_, hev3, rfl, hcnt, hinc, ?_, hcon3, ?_⟩
-  · simp [calcCounter, testOp, incCounter]; omega
+  · simp; omega
   · rw [← hgv3]
     exact getVariable_retop s3 _ _ vars' h h rest1 v hst3 rfl rfl rfl
   · rw [hst3] at hsc3; exact hsc3.retop
@@ -1113,22 +1223,24 @@ theorem var_chain_exists (img : Image) (top : Nat) (b : List Instr) (v : String)
       (by exact hsc2)
     exact ⟨_ :: ts, s', .pass hu hp, by simp [hl]⟩
 
-/-- **range_loop (chain form).**  `repeat with v from a to b` with literal numeric bounds
-`a`, `b` (values `x`, `y`) and a body that does not assign `v`: started at `LOOP` in a state
-where `v` is not a macro and names resolve (`ScopeOk`), the prologue ends at the loop top in a
-state `s1` where `v` denotes `a`; if the body behaves (`BodyRunV`) in each of the
-`passes (|y − x| + 1)` passes — for integers: `|b − a| + 1` — then the VM reaches the
+/-- **range_loop (chain form).**  `repeat with v from a to b` with bounds `lo`, `hi` that are
+literals, variables or registers (`SimpleArg`; what they denote when the loop starts are numbers
+`x`, `y`) and a body that does not assign `v`: started at `LOOP` in a state where `v` is not a
+macro and names resolve (`ScopeOk`), the prologue — which reads the bounds ONCE — ends at the
+loop top in a state `s1` where `v` denotes `lo`'s value; if the body behaves (`BodyRunV`) in each
+of the `passes (|y − x| + 1)` passes — for integers: `|b − a| + 1` — then the VM reaches the
 instruction after `END_LOOP` with the loop frame popped and the evaluation stack restored, and
-at the start of pass `k` (0-based) `v` denotes `a` with `+1` (if `x ≤ y`) or `−1` (if `y < x`)
-added `k` times. -/
-theorem C04_range_loop_chain (img : Image) (P0 : Nat) (b : List Instr) (v : String) (av bv : Val)
-    (x y : Rat) (fx fy : Bool) (hav : Num av x fx) (hbv : Num bv y fy)
-    (hc : CodeAt img P0 (unG (assembleLoop (indexVarRange v (.lit av) (.lit bv) true) counterTest []
+at the start of pass `k` (0-based) `v` denotes `lo`'s value with `+1` (if `x ≤ y`) or `−1` (if
+`y < x`) added `k` times. -/
+theorem C04_range_loop_chain (img : Image) (P0 : Nat) (b : List Instr) (v : String) (lo hi : Rv)
+    (hlo : SimpleArg lo) (hhi : SimpleArg hi) (x y : Rat) (fx fy : Bool)
+    (hc : CodeAt img P0 (unG (assembleLoop (indexVarRange v lo hi true) counterTest []
       (ins b) (loopPost (some v)))))
     (s : State) (hs : s.status = .running) (hpc : s.pc = (P0 : Int))
-    (hconst : s.constants.get v = none) (hscope : ScopeOk s.stack) :
+    (hconst : s.constants.get v = none) (hscope : ScopeOk s.stack)
+    (hav : Num (s.read lo.src) x fx) (hbv : Num (s.read hi.src) y fy) :
     ∃ s1 vars rest1, (∃ k, run img k s = s1) ∧ s1.status = .running ∧
-      s1.stack = .loop vars s.eval.length :: rest1 ∧ s1.getVariable v = av ∧
+      s1.stack = .loop vars s.eval.length :: rest1 ∧ s1.getVariable v = s.read lo.src ∧
       s1.constants.get v = none ∧ ScopeOk s1.stack ∧
       ∀ (ts : List State) (s' : State),
         Passes (BodyRunV img b v) (enterBody (P0 + 1 + 23 + 5)) (varPost (P0 + 1 + 23) v) s1 ts s' →
@@ -1137,19 +1249,21 @@ theorem C04_range_loop_chain (img : Image) (P0 : Nat) (b : List Instr) (v : Stri
         (exitLoop (P0 + (b.length + 39)) s').eval = s.eval ∧
         (∃ vars' rest', s'.stack = .loop vars' s.eval.length :: rest') ∧
         (∀ k (hk : k < ts.length),
-          ts[k].getVariable v = addN av (.int (if y < x then -1 else 1)) k) ∧
-        s'.getVariable v = addN av (.int (if y < x then -1 else 1)) ts.length := by
-  have hprelen : (indexVarRange v (.lit av) (.lit bv) true).length = 23 := by
-    rw [indexVarRange_lit_with]; rfl
-  have hlenAll : (unG (assembleLoop (indexVarRange v (.lit av) (.lit bv) true) counterTest []
+          ts[k].getVariable v = addN (s.read lo.src) (.int (if y < x then -1 else 1)) k) ∧
+        s'.getVariable v = addN (s.read lo.src) (.int (if y < x then -1 else 1)) ts.length := by
+  have hprelen : (indexVarRange v lo hi true).length = 23 := by
+    rw [indexVarRange_length v lo hi hlo hhi]; rfl
+  have hlenAll : (unG (assembleLoop (indexVarRange v lo hi true) counterTest []
       (ins b) (loopPost (some v)))).length = b.length + 39 := by
     rw [assembled_length, hprelen, loopPost_some_length]; omega
   rw [assembled_counted] at hc hlenAll
   obtain ⟨hL, hPre, _, _⟩ := loopCode_parts hc
   have hiff : (y - x < 0) ↔ (y < x) := by grind
   obtain ⟨k0, s1, vars, rest1, hrun, hr1, hpc1, hev1, hst1, hcnt, hinc, hgv, hcon1, hsc1⟩ :=
-    range_prologue img (afterLoop s) (P0 + 1) s.eval.length s.stack v av bv x y fx fy
-      (by exact hs) (by simp [afterLoop, hpc]) hPre rfl (by exact hconst) (ScopeOk.cons_loop hscope) hav hbv
+    range_prologue img (afterLoop s) (P0 + 1) s.eval.length s.stack v lo hi hlo hhi x y fx fy
+      (by exact hs) (by simp [afterLoop, hpc]) hPre rfl (by exact hconst) (ScopeOk.cons_loop hscope)
+      (by rw [read_simple_afterLoop lo hlo]; exact hav) (by rw [read_simple_afterLoop hi hhi]; exact hbv)
+  rw [read_simple_afterLoop lo hlo] at hgv
   have hneg : -(y - x) = x - y := by grind
   simp only [hiff, hneg] at hcnt hinc
   refine ⟨s1, vars, rest1, ⟨1 + k0, run_trans (run_loop_instr img s P0 hs hpc hL) hrun⟩, hr1, hst1, hgv,
@@ -1158,11 +1272,10 @@ theorem C04_range_loop_chain (img : Image) (P0 : Nat) (b : List Instr) (v : Stri
   have hd : Num (getLV vars .incr) ((if y < x then (-1 : Int) else 1 : Int) : Rat) false := by
     rw [hinc]; exact Num.int _
   have := var_loop_whole img P0 _ b v hc s s1 hs hpc ⟨k0, hrun⟩ hr1
-    (by rw [hpc1]; simp) hev1 vars rest1 _ _ _ _ x fx hst1 hcnt hd (by rw [hgv]; exact hav)
+    (by rw [hpc1, hprelen]; simp) hev1 vars rest1 _ _ _ _ x fx hst1 hcnt hd (by rw [hgv]; exact hav)
     ts s' (by rw [hprelen]; exact hp) hlen
   rw [hlenAll, hgv, hinc] at this
   exact this
-
 
 theorem add_int_int (i j : Int) : Val.add (.int i) (.int j) = some (.int (i + j)) := by
   have := (num_add (Num.int i) (Num.int j)).1
@@ -1209,8 +1322,8 @@ theorem C04_range_loop (img : Image) (P0 : Nat) (b : List Instr) (v : String) (a
         ts[k].getVariable v = .int (if a ≤ c then a + k else a - k)) ∧
       ∃ s1, Passes (BodyRunV img b v) (enterBody (P0 + 1 + 23 + 5)) (varPost (P0 + 1 + 23) v) s1 ts s' := by
   obtain ⟨s1, vars, rest1, hk1, hr1, hst1, hgv, hcon1, hsc1, hall⟩ :=
-    C04_range_loop_chain img P0 b v (.int a) (.int c) a c false false (Num.int a) (Num.int c) hc s hs hpc
-      hconst hscope
+    C04_range_loop_chain img P0 b v (.lit (.int a)) (.lit (.int c)) (.lit _) (.lit _) a c false false hc s hs
+      hpc hconst hscope (Num.int a) (Num.int c)
   have hB : CodeAt img (P0 + 1 + 23 + 5) b := by
     rw [assembled_counted] at hc
     obtain ⟨_, _, hT, _⟩ := loopCode_parts hc
@@ -1224,6 +1337,7 @@ theorem C04_range_loop (img : Image) (P0 : Nat) (b : List Instr) (v : String) (a
   refine ⟨ts, s', hl, hrun, hev, hfr, ?_, s1, hp⟩
   intro k hk
   rw [hvals k hk]
+  show addN (.int a) _ k = _
   have hlt : ((c : Rat) < (a : Rat)) ↔ c < a := Rat.intCast_lt_intCast
   by_cases h : c < a
   · have : ¬ a ≤ c := by omega
@@ -1488,38 +1602,54 @@ theorem interp_pre_eq (v : String) (nv av bv : Val) :
         .move (.loopVar .first) (.var v)] ++ calcIncr) := by
   simp [indexVarRange, genRv, counter]
 
-/-- **interp prologue.**  `genRv n → counter; indexVarRange v a b false` with literals. -/
+/-- **interp prologue.**  `genRv n → counter; indexVarRange v lo hi false` with simple
+operands, each read once. -/
 theorem interp_prologue (img : Image) (s0 : State) (pc h : Nat) (rest : List Frame) (v : String)
-    (nv av bv : Val) (c x y : Rat) (fl fx fy : Bool)
+    (n lo hi : Rv) (hn : SimpleArg n) (hlo : SimpleArg lo) (hhi : SimpleArg hi)
+    (c x y : Rat) (fl fx fy : Bool)
     (hs : s0.status = .running) (hpc : s0.pc = (pc : Int))
-    (hc : CodeAt img pc (genRv (.lit nv) (.to counter) ++ indexVarRange v (.lit av) (.lit bv) false))
+    (hc : CodeAt img pc (genRv n (.to counter) ++ indexVarRange v lo hi false))
     (hst : s0.stack = .loop [] h :: rest) (hconst : s0.constants.get v = none)
-    (hscope : ScopeOk s0.stack) (hnv : Num nv c fl) (hav : Num av x fx) (hbv : Num bv y fy) :
+    (hscope : ScopeOk s0.stack) (hnv : Num (s0.read n.src) c fl) (hav : Num (s0.read lo.src) x fx)
+    (hbv : Num (s0.read hi.src) y fy) :
     ∃ k s1 vars rest1, run img k s0 = s1 ∧ s1.status = .running ∧
       s1.pc = (pc : Int) + 19 ∧ s1.eval = s0.eval ∧
       s1.stack = .loop vars h :: rest1 ∧
       Num (getLV vars .counter) c fl ∧
       Num (getLV vars .incr) (if c = 1 then 0 else (y - x) / (c - 1)) (!decide (c = 1)) ∧
-      s1.getVariable v = av ∧ s1.constants = s0.constants ∧ ScopeOk s1.stack := by
-  rw [interp_pre_eq] at hc
+      s1.getVariable v = s0.read lo.src ∧ s1.constants = s0.constants ∧ ScopeOk s1.stack := by
+  have hc' : CodeAt img pc (genRv n (.to (.loopVar .counter)) ++
+      ((genRv lo (.to (.loopVar .first)) ++ genRv hi (.to (.loopVar .last)) ++
+        [Instr.move (.loopVar .first) (.var v)]) ++ calcIncr)) := by
+    simpa [indexVarRange, counter] using hc
+  let nv := s0.read n.src
   let v0 := setLV [] .counter nv
   let sa : State := { s0 with pc := (pc : Int) + 1, stack := .loop v0 h :: rest }
-  have ha : run img 1 s0 = sa :=
-    run_moveq_lv img s0 pc .counter nv [] h rest hs hpc (by have := hc.left.head; simpa using this) hst
-  have hcr := hc.right
-  simp only [List.length_cons, List.length_nil] at hcr
+  obtain ⟨hln, ha⟩ := run_simple_lv img s0 pc n hn .counter [] h rest hs hpc hc'.left hst
+  have ha : run img 1 s0 = sa := ha
+  have hcr := hc'.right
+  rw [hln] at hcr
+  have hra : sa.read lo.src = s0.read lo.src :=
+    read_simple_retop lo hlo s0 sa [] v0 h h rest hst rfl rfl rfl rfl
+  have hrb : sa.read hi.src = s0.read hi.src :=
+    read_simple_retop hi hhi s0 sa [] v0 h h rest hst rfl rfl rfl rfl
   obtain ⟨s3, rest1, hr3, hs3, hpc3, hev3, hst3, hgv3, hcon3, hsc3, _⟩ :=
-    run_bounds_lit img sa (pc + 1) h rest v av bv v0 (by exact hs) (by simp [sa]) hcr.left rfl
+    run_bounds img sa (pc + 1) h rest v lo hi hlo hhi v0 (by exact hs) (by simp [sa]) hcr.left rfl
       (by exact hconst) (by rw [hst] at hscope; exact hscope.retop)
-  have hcnt : Num (getLV (setLV (setLV v0 .first av) .last bv) .counter) c fl := by
+  rw [hra, hrb] at hst3
+  rw [hra] at hgv3
+  have hcnt : Num (getLV (setLV (setLV v0 .first (s0.read lo.src)) .last (s0.read hi.src)) .counter) c fl := by
     rw [getLV_setLV_other _ _ _ _ (by simp), getLV_setLV_other _ _ _ _ (by simp), getLV_setLV_self]
     exact hnv
-  have hf : Num (getLV (setLV (setLV v0 .first av) .last bv) .first) x fx := by
+  have hf : Num (getLV (setLV (setLV v0 .first (s0.read lo.src)) .last (s0.read hi.src)) .first) x fx := by
     rw [getLV_setLV_other _ _ _ _ (by simp), getLV_setLV_self]; exact hav
-  have hl : Num (getLV (setLV (setLV v0 .first av) .last bv) .last) y fy := by
+  have hl : Num (getLV (setLV (setLV v0 .first (s0.read lo.src)) .last (s0.read hi.src)) .last) y fy := by
     rw [getLV_setLV_self]; exact hbv
+  have hci : CodeAt img (pc + 1 + 3) calcIncr := by
+    have := hcr.right
+    simpa [genRv_simple_length lo hlo, genRv_simple_length hi hhi] using this
   obtain ⟨k, vars', hrun, hinc, hoth⟩ := run_calcIncr img s3 (pc + 1 + 3) _ h rest1 c x y fl fx fy hs3
-    (by rw [hpc3]; simp) (by have := hcr.right; simpa using this) hst3 hcnt hf hl
+    (by rw [hpc3]; simp) hci hst3 hcnt hf hl
   refine ⟨1 + (3 + k), _, vars', rest1, run_trans ha (run_trans hr3 hrun), hs3, ?_, hev3, rfl, ?_, hinc, ?_,
     hcon3, ?_⟩
   · simp; omega
@@ -1528,20 +1658,30 @@ theorem interp_prologue (img : Image) (s0 : State) (pc h : Nat) (rest : List Fra
     exact getVariable_retop s3 _ _ vars' h h rest1 v hst3 rfl rfl rfl
   · rw [hst3] at hsc3; exact hsc3.retop
 
-/-- **interp_loop (chain form).**  `repeat n with v from a to b` with literal numbers `n`, `a`,
-`b` (values `c`, `x`, `y`) and a body that does not assign `v`: `passes c` passes (for an integer
-`n ≥ 0`: `n`); at the start of pass `k` the variable `v` holds a number whose exact value is
+theorem interp_pre_length (v : String) (n lo hi : Rv) (hn : SimpleArg n) (hlo : SimpleArg lo)
+    (hhi : SimpleArg hi) : (genRv n (.to counter) ++ indexVarRange v lo hi false).length = 19 := by
+  rw [List.length_append, indexVarRange_length v lo hi hlo hhi]
+  have := genRv_simple_length n hn .counter
+  simp only [counter] at this ⊢
+  rw [this]; rfl
+
+/-- **interp_loop (chain form).**  `repeat n with v from a to b` with simple operands `n`,
+`lo`, `hi` (literals, variables, registers — read once, when the loop starts, as numbers `c`,
+`x`, `y`) and a body that does not assign `v`: `passes c` passes (for an integer `n ≥ 0`: `n`);
+at the start of pass `k` the variable `v` holds a number whose exact value is
 `x + k·(y − x)/(c − 1)` — so `a` in the first and, for an integer `n ≥ 2`, `b` in the last pass
 (`C04_interp_last`) — `n = 1` gives the single value `a`, `n = 0` no pass. -/
-theorem C04_interp_loop_chain (img : Image) (P0 : Nat) (b : List Instr) (v : String) (nv av bv : Val)
-    (c x y : Rat) (fl fx fy : Bool) (hnv : Num nv c fl) (hav : Num av x fx) (hbv : Num bv y fy)
+theorem C04_interp_loop_chain (img : Image) (P0 : Nat) (b : List Instr) (v : String) (n lo hi : Rv)
+    (hn : SimpleArg n) (hlo : SimpleArg lo) (hhi : SimpleArg hi)
+    (c x y : Rat) (fl fx fy : Bool)
     (hc : CodeAt img P0 (unG (assembleLoop
-      (genRv (.lit nv) (.to counter) ++ indexVarRange v (.lit av) (.lit bv) false) counterTest []
+      (genRv n (.to counter) ++ indexVarRange v lo hi false) counterTest []
       (ins b) (loopPost (some v)))))
     (s : State) (hs : s.status = .running) (hpc : s.pc = (P0 : Int))
-    (hconst : s.constants.get v = none) (hscope : ScopeOk s.stack) :
+    (hconst : s.constants.get v = none) (hscope : ScopeOk s.stack)
+    (hnv : Num (s.read n.src) c fl) (hav : Num (s.read lo.src) x fx) (hbv : Num (s.read hi.src) y fy) :
     ∃ s1 vars rest1, (∃ k, run img k s = s1) ∧ s1.status = .running ∧
-      s1.stack = .loop vars s.eval.length :: rest1 ∧ s1.getVariable v = av ∧
+      s1.stack = .loop vars s.eval.length :: rest1 ∧ s1.getVariable v = s.read lo.src ∧
       s1.constants.get v = none ∧ ScopeOk s1.stack ∧
       ∀ (ts : List State) (s' : State),
         Passes (BodyRunV img b v) (enterBody (P0 + 1 + 19 + 5)) (varPost (P0 + 1 + 19) v) s1 ts s' →
@@ -1551,17 +1691,19 @@ theorem C04_interp_loop_chain (img : Image) (P0 : Nat) (b : List Instr) (v : Str
         (∃ vars' rest', s'.stack = .loop vars' s.eval.length :: rest') ∧
         (∀ k (hk : k < ts.length), ∃ f,
           Num (ts[k].getVariable v) (x + (k : Rat) * (if c = 1 then 0 else (y - x) / (c - 1))) f) := by
-  have hprelen : (genRv (.lit nv) (.to counter) ++ indexVarRange v (.lit av) (.lit bv) false).length = 19 := by
-    rw [interp_pre_eq]; rfl
+  have hprelen := interp_pre_length v n lo hi hn hlo hhi
   have hlenAll : (unG (assembleLoop
-      (genRv (.lit nv) (.to counter) ++ indexVarRange v (.lit av) (.lit bv) false) counterTest []
+      (genRv n (.to counter) ++ indexVarRange v lo hi false) counterTest []
       (ins b) (loopPost (some v)))).length = b.length + 35 := by
     rw [assembled_length, hprelen, loopPost_some_length]; omega
   rw [assembled_counted] at hc hlenAll
   obtain ⟨hL, hPre, _, _⟩ := loopCode_parts hc
   obtain ⟨k0, s1, vars, rest1, hrun, hr1, hpc1, hev1, hst1, hcnt, hinc, hgv, hcon1, hsc1⟩ :=
-    interp_prologue img (afterLoop s) (P0 + 1) s.eval.length s.stack v nv av bv c x y fl fx fy
-      (by exact hs) (by simp [afterLoop, hpc]) hPre rfl (by exact hconst) (ScopeOk.cons_loop hscope) hnv hav hbv
+    interp_prologue img (afterLoop s) (P0 + 1) s.eval.length s.stack v n lo hi hn hlo hhi c x y fl fx fy
+      (by exact hs) (by simp [afterLoop, hpc]) hPre rfl (by exact hconst) (ScopeOk.cons_loop hscope)
+      (by rw [read_simple_afterLoop n hn]; exact hnv) (by rw [read_simple_afterLoop lo hlo]; exact hav)
+      (by rw [read_simple_afterLoop hi hhi]; exact hbv)
+  rw [read_simple_afterLoop lo hlo] at hgv
   refine ⟨s1, vars, rest1, ⟨1 + k0, run_trans (run_loop_instr img s P0 hs hpc hL) hrun⟩, hr1, hst1, hgv,
     by rw [hcon1]; exact hconst, hsc1, ?_⟩
   intro ts s' hp hlen
@@ -1572,7 +1714,7 @@ theorem C04_interp_loop_chain (img : Image) (P0 : Nat) (b : List Instr) (v : Str
   refine ⟨hrun', hev', hfr', ?_⟩
   intro k hk
   rw [hvals k hk, hgv]
-  exact ⟨_, C04_series_closed_form av _ x _ fx _ hav hinc k⟩
+  exact ⟨_, C04_series_closed_form (s.read lo.src) _ x _ fx _ hav hinc k⟩
 
 /-- both ends are included: with a count `c ≠ 1` the value of pass `c − 1` is the upper bound -/
 theorem C04_interp_last (x y c : Rat) (hc : c ≠ 1) :
@@ -1582,10 +1724,9 @@ theorem C04_interp_last (x y c : Rat) (hc : c ≠ 1) :
     Rat.mul_inv_cancel _ h1]
   grind
 
-
 /-! ## `repeat n with v cycle s` -/
 
-/-- the start value of a cycle: the given one, else 0 -/
+/-- the start value of a cycle given as a literal: the given one, else 0 -/
 def cycleStart (start : Option Val) : Val := start.getD (.int 0)
 
 theorem cycle_pre_eq (v : String) (nv : Val) (start : Option Val) :
@@ -1595,28 +1736,47 @@ theorem cycle_pre_eq (v : String) (nv : Val) (start : Option Val) :
         cycleTail) := by
   cases start <;> simp [cycleVarRange, genRv, counter, cycleTail, cycleStart]
 
+/-- the start operand of a cycle: the given one, else the literal 0 -/
+def startRv (start : Option Rv) : Rv := start.getD (.lit (.int 0))
+
+theorem startRv_simple (start : Option Rv) (h : ∀ a, start = some a → SimpleArg a) :
+    SimpleArg (startRv start) := by
+  cases start with
+  | none => exact .lit _
+  | some a => exact h a rfl
+
+theorem cycleVarRange_eq (v : String) (start : Option Rv) :
+    cycleVarRange v start =
+      genRv (startRv start) (.to (.loopVar .first)) ++ [Instr.move (.loopVar .first) (.var v)] ++
+        cycleTail := by
+  cases start <;> simp [cycleVarRange, genRv, cycleTail, startRv]
+
 /-- `first := s; v := first` -/
-theorem run_start_lit (img : Image) (s0 : State) (pc h : Nat) (rest : List Frame) (v : String)
-    (sv : Val) (vars0 : List (LoopVar × Val))
+theorem run_start (img : Image) (s0 : State) (pc h : Nat) (rest : List Frame) (v : String)
+    (a : Rv) (ha : SimpleArg a) (vars0 : List (LoopVar × Val))
     (hs : s0.status = .running) (hpc : s0.pc = (pc : Int))
-    (hc : CodeAt img pc [Instr.moveq sv (.loopVar .first), .move (.loopVar .first) (.var v)])
+    (hc : CodeAt img pc (genRv a (.to (.loopVar .first)) ++ [Instr.move (.loopVar .first) (.var v)]))
     (hst : s0.stack = .loop vars0 h :: rest) (hconst : s0.constants.get v = none)
     (hscope : ScopeOk s0.stack) :
     ∃ s3 rest1, run img 2 s0 = s3 ∧ s3.status = .running ∧ s3.pc = (pc : Int) + 2 ∧ s3.eval = s0.eval ∧
-      s3.stack = .loop (setLV vars0 .first sv) h :: rest1 ∧
-      s3.getVariable v = sv ∧ s3.constants = s0.constants ∧ ScopeOk s3.stack ∧ s3.regs = s0.regs := by
+      s3.stack = .loop (setLV vars0 .first (s0.read a.src)) h :: rest1 ∧
+      s3.getVariable v = s0.read a.src ∧ s3.constants = s0.constants ∧ ScopeOk s3.stack ∧
+      s3.regs = s0.regs := by
+  let sv := s0.read a.src
   let v1 := setLV vars0 .first sv
   let sa : State := { s0 with pc := (pc : Int) + 1, stack := .loop v1 h :: rest }
-  have ha : run img 1 s0 = sa := run_moveq_lv img s0 pc .first sv vars0 h rest hs hpc (hc.get 0 (by simp)) hst
+  obtain ⟨hla, ha1⟩ := run_simple_lv img s0 pc a ha .first vars0 h rest hs hpc hc.left hst
+  have ha1 : run img 1 s0 = sa := ha1
   have hgf : getLV v1 .first = sv := getLV_setLV_self _ _ _
+  have hmv : img.code[pc + 1]? = some (.move (.loopVar .first) (.var v)) := by
+    have := hc.right.head; simpa [hla] using this
   have hcm : run img 1 sa = { sa.putVariable v sv with pc := (pc : Int) + 2 } := by
-    rw [run_move_lv_var img sa (pc + 1) .first v v1 h rest (by exact hs) (by simp [sa]) (hc.get 1 (by simp)) rfl,
-      hgf]
+    rw [run_move_lv_var img sa (pc + 1) .first v v1 h rest (by exact hs) (by simp [sa]) hmv rfl, hgf]
     apply State.ext' <;> first | rfl | (simp; omega)
   obtain ⟨hget, hsc, hcon, htop⟩ := putVariable_get sa v sv hconst (by rw [hst] at hscope; exact hscope.retop)
   obtain ⟨rest1, hst3⟩ := htop v1 h rest rfl
   refine ⟨{ sa.putVariable v sv with pc := (pc : Int) + 2 }, rest1, ?_, ?_, rfl, ?_, hst3, hget, hcon, hsc, ?_⟩
-  · exact run_trans ha hcm
+  · exact run_trans ha1 hcm
   · simpa [putVariable_status] using hs
   · simp only []; rw [putVariable_eval]
   · show (sa.putVariable v sv).regs = s0.regs
@@ -1624,34 +1784,56 @@ theorem run_start_lit (img : Image) (s0 : State) (pc h : Nat) (rest : List Frame
     repeat' split
     all_goals rfl
 
-/-- **cycle prologue.**  `genRv n → counter; cycleVarRange v s` with literals. -/
+theorem cycle_pre_length (v : String) (n : Rv) (start : Option Rv) (hn : SimpleArg n)
+    (hst : SimpleArg (startRv start)) :
+    (genRv n (.to counter) ++ cycleVarRange v start).length = 21 := by
+  rw [List.length_append, cycleVarRange_eq]
+  have h1 := genRv_simple_length n hn .counter
+  have h2 := genRv_simple_length (startRv start) hst .first
+  simp only [counter] at h1 ⊢
+  simp only [List.length_append, h1, h2, List.length_cons, List.length_nil]
+  rfl
+
+/-- **cycle prologue.**  `genRv n → counter; cycleVarRange v s` with simple operands. -/
 theorem cycle_prologue (img : Image) (s0 : State) (pc h : Nat) (rest : List Frame) (v : String)
-    (nv : Val) (start : Option Val) (c : Rat) (fl : Bool) (m : UnitMode)
+    (n : Rv) (start : Option Rv) (hn : SimpleArg n) (hsr : SimpleArg (startRv start))
+    (c : Rat) (fl : Bool) (m : UnitMode)
     (hs : s0.status = .running) (hpc : s0.pc = (pc : Int))
-    (hc : CodeAt img pc (genRv (.lit nv) (.to counter) ++ cycleVarRange v (start.map Rv.lit)))
+    (hc : CodeAt img pc (genRv n (.to counter) ++ cycleVarRange v start))
     (hst : s0.stack = .loop [] h :: rest) (hconst : s0.constants.get v = none)
-    (hscope : ScopeOk s0.stack) (hnv : Num nv c fl) (hm : s0.regs .unitMode = .mode m) :
+    (hscope : ScopeOk s0.stack) (hnv : Num (s0.read n.src) c fl) (hm : s0.regs .unitMode = .mode m) :
     ∃ k s1 vars rest1, run img k s0 = s1 ∧ s1.status = .running ∧
       s1.pc = (pc : Int) + 21 ∧ s1.eval = s0.eval ∧
       s1.stack = .loop vars h :: rest1 ∧
       Num (getLV vars .counter) c fl ∧
       Num (getLV vars .incr) (if c = 0 then 0 else ((turnOf m : Int) : Rat) / c) (!decide (c = 0)) ∧
-      s1.getVariable v = cycleStart start ∧ s1.constants = s0.constants ∧ ScopeOk s1.stack := by
-  rw [cycle_pre_eq] at hc
+      s1.getVariable v = s0.read (startRv start).src ∧ s1.constants = s0.constants ∧
+      ScopeOk s1.stack := by
+  have hc' : CodeAt img pc (genRv n (.to (.loopVar .counter)) ++
+      ((genRv (startRv start) (.to (.loopVar .first)) ++ [Instr.move (.loopVar .first) (.var v)]) ++
+        cycleTail)) := by
+    rw [cycleVarRange_eq] at hc; simpa [counter] using hc
+  let nv := s0.read n.src
   let v0 := setLV [] .counter nv
   let sa : State := { s0 with pc := (pc : Int) + 1, stack := .loop v0 h :: rest }
-  have ha : run img 1 s0 = sa :=
-    run_moveq_lv img s0 pc .counter nv [] h rest hs hpc (by have := hc.left.head; simpa using this) hst
-  have hcr := hc.right
-  simp only [List.length_cons, List.length_nil] at hcr
+  obtain ⟨hln, ha⟩ := run_simple_lv img s0 pc n hn .counter [] h rest hs hpc hc'.left hst
+  have ha : run img 1 s0 = sa := ha
+  have hcr := hc'.right
+  rw [hln] at hcr
+  have hra : sa.read (startRv start).src = s0.read (startRv start).src :=
+    read_simple_retop _ hsr s0 sa [] v0 h h rest hst rfl rfl rfl rfl
   obtain ⟨s3, rest1, hr3, hs3, hpc3, hev3, hst3, hgv3, hcon3, hsc3, hregs3⟩ :=
-    run_start_lit img sa (pc + 1) h rest v (cycleStart start) v0 (by exact hs) (by simp [sa]) hcr.left rfl
+    run_start img sa (pc + 1) h rest v (startRv start) hsr v0 (by exact hs) (by simp [sa]) hcr.left rfl
       (by exact hconst) (by rw [hst] at hscope; exact hscope.retop)
-  have hcnt : Num (getLV (setLV v0 .first (cycleStart start)) .counter) c fl := by
+  rw [hra] at hst3 hgv3
+  have hcnt : Num (getLV (setLV v0 .first (s0.read (startRv start).src)) .counter) c fl := by
     rw [getLV_setLV_other _ _ _ _ (by simp), getLV_setLV_self]
     exact hnv
+  have hct : CodeAt img (pc + 1 + 2) cycleTail := by
+    have := hcr.right
+    simpa [genRv_simple_length _ hsr] using this
   obtain ⟨k, vars', R, hrun, hR, hinc, hoth⟩ := run_cycleIncr img s3 (pc + 1 + 2) _ h rest1 c fl m hs3
-    (by rw [hpc3]; simp) (by have := hcr.right; simpa using this) hst3 hcnt (by rw [hregs3]; exact hm)
+    (by rw [hpc3]; simp) hct hst3 hcnt (by rw [hregs3]; exact hm)
   refine ⟨1 + (2 + k), _, vars', rest1, run_trans ha (run_trans hr3 hrun), hs3, ?_, hev3, rfl, ?_, hinc, ?_,
     hcon3, ?_⟩
   · simp; omega
@@ -1660,22 +1842,23 @@ theorem cycle_prologue (img : Image) (s0 : State) (pc h : Nat) (rest : List Fram
     exact getVariable_retop s3 _ _ vars' h h rest1 v hst3 rfl rfl rfl
   · rw [hst3] at hsc3; exact hsc3.retop
 
-/-- **cycle_loop (chain form).**  `repeat n with v cycle [s]` with a literal count `n` (value
-`c`) and start `s` (value `x`; 0 when absent) and a body that does not assign `v`: `passes c`
-passes; at the start of pass `k` the variable `v` holds a number whose exact value is
-`x + k·turn/c`, where `turn` is 65536 if the unit-mode register holds `raw` when the loop
-starts and 360 otherwise; `n = 0` gives no pass and no fault. -/
-theorem C04_cycle_loop_chain (img : Image) (P0 : Nat) (b : List Instr) (v : String) (nv : Val)
-    (start : Option Val) (c x : Rat) (fl fx : Bool) (m : UnitMode) (hnv : Num nv c fl)
-    (hsv : Num (cycleStart start) x fx)
+/-- **cycle_loop (chain form).**  `repeat n with v cycle [s]` with a simple count `n` (value
+`c` when the loop starts) and simple start `s` (value `x`; the literal 0 when absent) and a body
+that does not assign `v`: `passes c` passes; at the start of pass `k` the variable `v` holds a
+number whose exact value is `x + k·turn/c`, where `turn` is 65536 if the unit-mode register holds
+`raw` when the loop starts and 360 otherwise; `n = 0` gives no pass and no fault. -/
+theorem C04_cycle_loop_chain (img : Image) (P0 : Nat) (b : List Instr) (v : String) (n : Rv)
+    (start : Option Rv) (hn : SimpleArg n) (hsr : SimpleArg (startRv start))
+    (c x : Rat) (fl fx : Bool) (m : UnitMode)
     (hc : CodeAt img P0 (unG (assembleLoop
-      (genRv (.lit nv) (.to counter) ++ cycleVarRange v (start.map Rv.lit)) counterTest []
+      (genRv n (.to counter) ++ cycleVarRange v start) counterTest []
       (ins b) (loopPost (some v)))))
     (s : State) (hs : s.status = .running) (hpc : s.pc = (P0 : Int))
     (hconst : s.constants.get v = none) (hscope : ScopeOk s.stack)
+    (hnv : Num (s.read n.src) c fl) (hsv : Num (s.read (startRv start).src) x fx)
     (hm : s.regs .unitMode = .mode m) :
     ∃ s1 vars rest1, (∃ k, run img k s = s1) ∧ s1.status = .running ∧
-      s1.stack = .loop vars s.eval.length :: rest1 ∧ s1.getVariable v = cycleStart start ∧
+      s1.stack = .loop vars s.eval.length :: rest1 ∧ s1.getVariable v = s.read (startRv start).src ∧
       s1.constants.get v = none ∧ ScopeOk s1.stack ∧
       ∀ (ts : List State) (s' : State),
         Passes (BodyRunV img b v) (enterBody (P0 + 1 + 21 + 5)) (varPost (P0 + 1 + 21) v) s1 ts s' →
@@ -1686,18 +1869,18 @@ theorem C04_cycle_loop_chain (img : Image) (P0 : Nat) (b : List Instr) (v : Stri
         (∀ k (hk : k < ts.length), ∃ f,
           Num (ts[k].getVariable v)
             (x + (k : Rat) * (if c = 0 then 0 else ((turnOf m : Int) : Rat) / c)) f) := by
-  have hprelen : (genRv (.lit nv) (.to counter) ++ cycleVarRange v (start.map Rv.lit)).length = 21 := by
-    rw [cycle_pre_eq]; rfl
+  have hprelen := cycle_pre_length v n start hn hsr
   have hlenAll : (unG (assembleLoop
-      (genRv (.lit nv) (.to counter) ++ cycleVarRange v (start.map Rv.lit)) counterTest []
+      (genRv n (.to counter) ++ cycleVarRange v start) counterTest []
       (ins b) (loopPost (some v)))).length = b.length + 37 := by
     rw [assembled_length, hprelen, loopPost_some_length]; omega
   rw [assembled_counted] at hc hlenAll
   obtain ⟨hL, hPre, _, _⟩ := loopCode_parts hc
   obtain ⟨k0, s1, vars, rest1, hrun, hr1, hpc1, hev1, hst1, hcnt, hinc, hgv, hcon1, hsc1⟩ :=
-    cycle_prologue img (afterLoop s) (P0 + 1) s.eval.length s.stack v nv start c fl m
-      (by exact hs) (by simp [afterLoop, hpc]) hPre rfl (by exact hconst) (ScopeOk.cons_loop hscope) hnv
-      (by exact hm)
+    cycle_prologue img (afterLoop s) (P0 + 1) s.eval.length s.stack v n start hn hsr c fl m
+      (by exact hs) (by simp [afterLoop, hpc]) hPre rfl (by exact hconst) (ScopeOk.cons_loop hscope)
+      (by rw [read_simple_afterLoop n hn]; exact hnv) (by exact hm)
+  rw [read_simple_afterLoop _ hsr] at hgv
   refine ⟨s1, vars, rest1, ⟨1 + k0, run_trans (run_loop_instr img s P0 hs hpc hL) hrun⟩, hr1, hst1, hgv,
     by rw [hcon1]; exact hconst, hsc1, ?_⟩
   intro ts s' hp hlen
@@ -1708,11 +1891,10 @@ theorem C04_cycle_loop_chain (img : Image) (P0 : Nat) (b : List Instr) (v : Stri
   refine ⟨hrun', hev', hfr', ?_⟩
   intro k hk
   rw [hvals k hk, hgv]
-  exact ⟨_, C04_series_closed_form (cycleStart start) _ x _ fx _ hsv hinc k⟩
+  exact ⟨_, C04_series_closed_form _ _ x _ fx _ hsv hinc k⟩
 
 /-- no pass and no fault with a count of 0 -/
 theorem C04_cycle_zero : passes 0 = 0 := passes_nonpos (by decide)
-
 
 theorem body_at {img : Image} {P0 : Nat} {pre b post : List Instr}
     (hc : CodeAt img P0 (loopCode pre counterTest (b ++ post))) :
@@ -1721,13 +1903,16 @@ theorem body_at {img : Image} {P0 : Nat} {pre b post : List Instr}
   exact (loopTail_parts hT).2.2.1
 
 /-- **interp_loop.**  With a body that satisfies the contract from every state. -/
-theorem C04_interp_loop (img : Image) (P0 : Nat) (b : List Instr) (v : String) (nv av bv : Val)
-    (c x y : Rat) (fl fx fy : Bool) (hnv : Num nv c fl) (hav : Num av x fx) (hbv : Num bv y fy)
+theorem C04_interp_loop (img : Image) (P0 : Nat) (b : List Instr) (v : String) (n lo hi : Rv)
+    (hn : SimpleArg n) (hlo : SimpleArg lo) (hhi : SimpleArg hi)
+    (c x y : Rat) (fl fx fy : Bool)
     (hc : CodeAt img P0 (unG (assembleLoop
-      (genRv (.lit nv) (.to counter) ++ indexVarRange v (.lit av) (.lit bv) false) counterTest []
+      (genRv n (.to counter) ++ indexVarRange v lo hi false) counterTest []
       (ins b) (loopPost (some v)))))
     (s : State) (hs : s.status = .running) (hpc : s.pc = (P0 : Int))
-    (hconst : s.constants.get v = none) (hscope : ScopeOk s.stack) (hok : BodyOkV img b v) :
+    (hconst : s.constants.get v = none) (hscope : ScopeOk s.stack)
+    (hnv : Num (s.read n.src) c fl) (hav : Num (s.read lo.src) x fx) (hbv : Num (s.read hi.src) y fy)
+    (hok : BodyOkV img b v) :
     ∃ (ts : List State) (s' : State),
       ts.length = passes c ∧
       (∃ k, run img k s = exitLoop (P0 + (b.length + 35)) s') ∧
@@ -1737,11 +1922,11 @@ theorem C04_interp_loop (img : Image) (P0 : Nat) (b : List Instr) (v : String) (
         Num (ts[k].getVariable v) (x + (k : Rat) * (if c = 1 then 0 else (y - x) / (c - 1))) f) ∧
       ∃ s1, Passes (BodyRunV img b v) (enterBody (P0 + 1 + 19 + 5)) (varPost (P0 + 1 + 19) v) s1 ts s' := by
   obtain ⟨s1, vars, rest1, hk1, hr1, hst1, hgv, hcon1, hsc1, hall⟩ :=
-    C04_interp_loop_chain img P0 b v nv av bv c x y fl fx fy hnv hav hbv hc s hs hpc hconst hscope
+    C04_interp_loop_chain img P0 b v n lo hi hn hlo hhi c x y fl fx fy hc s hs hpc hconst hscope hnv hav hbv
   have hB : CodeAt img (P0 + 1 + 19 + 5) b := by
     rw [assembled_counted] at hc
     have := body_at hc
-    rw [interp_pre_eq] at this
+    rw [interp_pre_length v n lo hi hn hlo hhi] at this
     exact this
   obtain ⟨ts, s', hp, hl⟩ := var_chain_exists img (P0 + 1 + 19) b v hB hok (passes c) s1 vars
     s.eval.length rest1 hr1 hst1 hcon1 hsc1
@@ -1749,14 +1934,15 @@ theorem C04_interp_loop (img : Image) (P0 : Nat) (b : List Instr) (v : String) (
   exact ⟨ts, s', hl, hrun, hev, hfr, hvals, s1, hp⟩
 
 /-- **cycle_loop.**  With a body that satisfies the contract from every state. -/
-theorem C04_cycle_loop (img : Image) (P0 : Nat) (b : List Instr) (v : String) (nv : Val)
-    (start : Option Val) (c x : Rat) (fl fx : Bool) (m : UnitMode) (hnv : Num nv c fl)
-    (hsv : Num (cycleStart start) x fx)
+theorem C04_cycle_loop (img : Image) (P0 : Nat) (b : List Instr) (v : String) (n : Rv)
+    (start : Option Rv) (hn : SimpleArg n) (hsr : SimpleArg (startRv start))
+    (c x : Rat) (fl fx : Bool) (m : UnitMode)
     (hc : CodeAt img P0 (unG (assembleLoop
-      (genRv (.lit nv) (.to counter) ++ cycleVarRange v (start.map Rv.lit)) counterTest []
+      (genRv n (.to counter) ++ cycleVarRange v start) counterTest []
       (ins b) (loopPost (some v)))))
     (s : State) (hs : s.status = .running) (hpc : s.pc = (P0 : Int))
     (hconst : s.constants.get v = none) (hscope : ScopeOk s.stack)
+    (hnv : Num (s.read n.src) c fl) (hsv : Num (s.read (startRv start).src) x fx)
     (hm : s.regs .unitMode = .mode m) (hok : BodyOkV img b v) :
     ∃ (ts : List State) (s' : State),
       ts.length = passes c ∧
@@ -1768,17 +1954,16 @@ theorem C04_cycle_loop (img : Image) (P0 : Nat) (b : List Instr) (v : String) (n
           (x + (k : Rat) * (if c = 0 then 0 else ((turnOf m : Int) : Rat) / c)) f) ∧
       ∃ s1, Passes (BodyRunV img b v) (enterBody (P0 + 1 + 21 + 5)) (varPost (P0 + 1 + 21) v) s1 ts s' := by
   obtain ⟨s1, vars, rest1, hk1, hr1, hst1, hgv, hcon1, hsc1, hall⟩ :=
-    C04_cycle_loop_chain img P0 b v nv start c x fl fx m hnv hsv hc s hs hpc hconst hscope hm
+    C04_cycle_loop_chain img P0 b v n start hn hsr c x fl fx m hc s hs hpc hconst hscope hnv hsv hm
   have hB : CodeAt img (P0 + 1 + 21 + 5) b := by
     rw [assembled_counted] at hc
     have := body_at hc
-    rw [cycle_pre_eq] at this
+    rw [cycle_pre_length v n start hn hsr] at this
     exact this
   obtain ⟨ts, s', hp, hl⟩ := var_chain_exists img (P0 + 1 + 21) b v hB hok (passes c) s1 vars
     s.eval.length rest1 hr1 hst1 hcon1 hsc1
   obtain ⟨hrun, hev, hfr, hvals⟩ := hall ts s' hp hl
   exact ⟨ts, s', hl, hrun, hev, hfr, hvals, s1, hp⟩
-
 
 section WhileLoop
 open Sem
@@ -2553,6 +2738,14 @@ example : runOuts ([Instr.moveq (.mode .raw) (.reg .unitMode)] ++
 example : (Vm.run (Loader.load (loopOf (cyclePre "h" (.int 0) none) (printVar "h") (some "h"))) 400 (Vm.init [])).status
     = .halted := by decide +kernel
 example : runOuts (loopOf (cyclePre "h" (.int 0) none) (printVar "h") (some "h")) 400 = [] := by decide +kernel
+
+/-- `n = 3  repeat n begin print n  n = 10 end`: the count is read once — three passes although
+the body overwrites `n` — and the body sees the new value from the second pass on -/
+def exCountOnce : List Instr :=
+  [Instr.moveq (.int 3) (.var "n")] ++
+  unG (assembleLoop [.move (.var "n") counter] counterTest []
+    (ins (printVar "n" ++ [.moveq (.int 10) (.var "n")])) (loopPost none))
+example : runOuts exCountOnce 400 = [3, 10, 10] := by decide +kernel
 
 def exLights : List Light :=
   [{ name := "a", group := "g", location := "x", kind := .plain },
